@@ -152,3 +152,23 @@ Example C08_source_local_example :
   = GoSem.Ret (map ImpProofsD.step_n [SMatch; SMatch; SMatch; SDel; SMatch; SMatch], 0%Z, 1%Z, 9%Z)
   /\ ImpGen.imp_align_Local 60 (bs "aaa") (bs "bb") ex_nonpos = GoSem.Ret ([], (-1)%Z, (-1)%Z, 0%Z).
 Proof. vm_compute. split; reflexivity. Qed.
+
+(* ---- the property itself, about the translated source -------------------------------------------------
+   Global and Local as translated from align/global.go and align/local.go on this run return
+   (no panic), and what they return is valid: the compositions of C08_global_valid /
+   C08_local_valid with the equivalence theorems above. *)
+From Bio.Proofs Require ImpProofsV.
+
+Theorem C08_global_valid_is_source : forall fuel m a b, covers m a b ->
+  (S (length a) * S (length b) < fuel)%nat ->
+  exists al s, ImpGen.imp_align_Global fuel a b m = GoSem.Ret (map ImpProofsD.step_n al, s)
+    /\ consumes al = (length a, length b) /\ score m a b al = Ok s.
+Proof. exact ImpProofsV.global_valid_src. Qed.
+Print Assumptions C08_global_valid_is_source.
+
+Theorem C08_local_valid_is_source : forall fuel m a b, covers m a b -> nonpos_gaps m a b ->
+  (S (length a) * S (length b) < fuel)%nat ->
+  exists al ai bi s, ImpGen.imp_align_Local fuel a b m = GoSem.Ret (map ImpProofsD.step_n al, ai, bi, s)
+    /\ local_answer_valid (get m) a b (al, ai, bi, s).
+Proof. exact ImpProofsV.local_valid_src. Qed.
+Print Assumptions C08_local_valid_is_source.
